@@ -1550,6 +1550,11 @@ impl<'s> Worker<'s> {
             return WalkState::Skip;
         }
 
+        // A directory at the maximum depth isn't read by the single threaded
+        // walker, so a failure to read it is nothing to report here either.
+        if self.max_depth.map_or(false, |max| depth >= max) {
+            return WalkState::Skip;
+        }
         let readdir = match readdir {
             Ok(readdir) => readdir,
             Err(err) => {
@@ -1557,9 +1562,6 @@ impl<'s> Worker<'s> {
             }
         };
 
-        if self.max_depth.map_or(false, |max| depth >= max) {
-            return WalkState::Skip;
-        }
         for result in readdir {
             let state = self.generate_work(
                 &work.ignore,
